@@ -90,8 +90,10 @@ class Getter:
             One special field named "sid" contains the Sid
         """
         # shortcut if Sid is not a search (an extension alias in the last part still needs unfolding)
+        # (the given search itself must be free of search symbols and query: a query is applied per type when unfolding)
         sid = Sid(search_sid)
-        if sid and not sid.is_search() and sid.string.split(conf.sip)[-1] not in conf.extension_alias:
+        is_search = sid.is_search() or any(s in str(search_sid) for s in conf.search_symbols + ["?"])
+        if sid and not is_search and sid.string.split(conf.sip)[-1] not in conf.extension_alias:
             generator = self.do_get([sid], attributes=attributes, sid_encode=sid_encode)
         else:
             search_sids = unfold_search(search_sid)
